@@ -67,6 +67,7 @@ structure Meth where
   name : String
   front : Option FFun     -- goes through this front-end memoised function
   guard : Bool            -- front end calls `_raise_if_pid_reused()` first
+  goneCheck : Bool        -- … and that guard raises NoSuchProcess once is_running() has seen the process gone
   srcs : List Src         -- reads of the platform method, in order
   zprobe : Bool           -- `if not data: self._raise_if_zombie()`
   deriving Repr
@@ -158,22 +159,28 @@ def guardProbe (st : St) (w : World) : St :=
 def frontBody (cfg : Cfg) (m : Meth) (st : St) (w : World) : St × Except Exc Val :=
   platCall cfg m (if m.guard then guardProbe st w else st) w
 
+/-- the body of the front-end method: `_raise_if_pid_reused()` refuses a process that
+    `is_running()` has seen gone (`if self._gone: raise NoSuchProcess`), then the platform call -/
+def frontGuarded (cfg : Cfg) (m : Meth) (st : St) (w : World) : St × Except Exc Val :=
+  if m.goneCheck && w.st == PState.gone then (st, .error .noSuchProcess)
+  else frontBody cfg m st w
+
 /-- a public call `p.<m>()` -/
 def call (cfg : Cfg) (m : Meth) (st : St) (w : World) : St × Except Exc Val :=
   match m.front with
-  | none => frontBody cfg m st w
+  | none => frontGuarded cfg m st w
   | some f =>
     if cfg.memoFront.contains f then
       match st.cache with
-      | none => frontBody cfg m st w                           -- case 2
+      | none => frontGuarded cfg m st w                           -- case 2
       | some d =>
         match d.lookup f with
         | some v => (st, .ok v)                                -- case 1
         | none =>                                              -- case 3
-          match frontBody cfg m st w with
+          match frontGuarded cfg m st w with
           | (st', .ok v) => ({ st' with cache := some ((f, v) :: d) }, .ok v)
           | (st', .error e) => (st', .error e)
-    else frontBody cfg m st w
+    else frontGuarded cfg m st w
 
 /-- the activation half of `oneshot()` -/
 def activate (cfg : Cfg) (st : St) : St :=
